@@ -88,7 +88,11 @@ def main(argv=None):
                 sub.setup()
             try:
                 deadline = t0 + sub.time_cap.get(args.tier, 600)
-                if sub.enumerate is not None:
+                if sub.external is not None:
+                    ext_found, complete = sub.external(sub, args.tier, args.n, args.seed, args.shard, args.nshards, known, rec, deadline)
+                    report["found"].extend(ext_found)
+                    found = []
+                elif sub.enumerate is not None:
                     found, complete = core.run_enumeration(
                         sub, args.tier, args.shard, args.nshards, known, rec,
                         deadline)
